@@ -183,7 +183,7 @@ func C08(c *Ctx, r *report.Run) error {
 	r.Rule = "for every RPC of the REST/query/path-kind/header/multi-service/codec units and every enumerated request / response value expressible in TypeScript (JSON numbers within 2^53, no non-finite floats): (1) TS client -> Go server: the emitted TS client runs under node 22 with a recording fetch, the recorded request is replayed byte-for-byte on the generated Go server, the Go response is fed back to the TS client; (2) Go client -> TS server: the generated Go client's recorded request is routed through the emitted RouteDescriptors to the emitted TS handler, whose response is fed back to the Go client; (3) TS client -> TS server inside node; oracle: the handler of the same RPC receives the request the caller passed and the caller receives the handler's response; (4) every typed header option of both clients is called with a marker and must put it under exactly the declared header name; distinct = (unit, rpc, pairing, outcome)"
 	var specs []*spec.Spec
 	for _, s := range serviceSpecs(c) {
-		if !hasTag(s, "ctx") && !hasTag(s, "rules") && !hasTag(s, "mock") && len(s.Files) == 1 {
+		if !hasTag(s, "ctx") && !hasTag(s, "rules") && !hasTag(s, "mock") && len(s.Files) == 1 && !hasTag(s, "serveronly") {
 			specs = append(specs, s)
 		}
 	}
@@ -475,6 +475,9 @@ func str(m map[string]any, k string) string {
 func c08Judge(r *report.Run, w *ws.Workspace, d *tsData) {
 	for _, id := range d.order {
 		tc := d.cases[id]
+		if strings.HasPrefix(tc.Class, "probe") {
+			continue // probe values serve C03's template recovery; they need not satisfy the declared rules
+		}
 		cellBase := fmt.Sprintf("%s,rpc=%s.%s", tc.Cell, tc.Svc, tc.RPC)
 		replay := map[string]any{"case": tc}
 		viol := func(pairing, sym, detail string) {
